@@ -336,7 +336,7 @@ func loadProgram(module string, files []*harnessFile) (*ssa.Program, map[string]
 		return nil, nil, fmt.Errorf("package errors: %s", strings.Join(errs, "; "))
 	}
 	prog, spkgs := ssautil.AllPackages(pkgs, ssa.InstantiateGenerics)
-	prog.Build()
+	// function bodies are built lazily, package by package, when the executor first enters a package (sym.ensureBuilt)
 	byDir := map[string]*ssa.Package{}
 	for i, p := range pkgs {
 		if spkgs[i] != nil && len(p.GoFiles) > 0 {
